@@ -2,3 +2,4 @@
 """setup helper: build every OCaml model driver used by the checks"""
 import lib
 print(lib.build_model())
+print(lib.build_model(extract="qfmodel", driver="driver_qf.ml"))
